@@ -284,9 +284,36 @@ class Interp:
                 raise TranslationError(f"isinstance of the result against {c.name}: not determined by the result classes ({what})")
         return hit
 
+    def max_over_lines(self, node: ast.Call, env: Dict[str, Any]) -> Any:
+        """`max(<elt> for document in sys.stdin, default=k)` / the same with a list comprehension: the document loop as a fold"""
+        comp = node.args[0]
+        kws = {k.arg: k.value for k in node.keywords}
+        if len(comp.generators) != 1 or comp.generators[0].ifs or comp.generators[0].is_async or set(kws) != {"default"}:
+            raise TranslationError(f"max over a comprehension outside the subset: {ast.unparse(node)[:80]}")
+        g = comp.generators[0]
+        it = self.ev(g.iter, env)
+        init = self.ev(kws["default"], env)
+        if not isinstance(g.target, ast.Name) or type(init) is not int or not self.sc.get("in_main") or self.loop is not None:
+            raise TranslationError(f"max over a comprehension outside the subset: {ast.unparse(node)[:80]}")
+        source = "sys.stdin" if it == Sym("sys.stdin") else "other: " + ast.unparse(g.iter)
+        steps = []
+        for s in range(4):
+            for d in range(4):
+                sub = Interp(self.module, dict(self.sc, doc_status=d))
+                e2 = {k: (set(v) if k == "__locals__" else v) for k, v in env.items()}
+                e2[g.target.id] = Sym("line")
+                v = sub.ev(comp.elt, e2)
+                if type(v) is not int:
+                    raise TranslationError("max over a comprehension: element is not a status")
+                steps.append((s, d, sub.trace, max(s, v)))
+        self.loop = {"source": source, "init": init, "steps": steps, "var": "max"}
+        return Sym("LOOP")
+
     def call(self, node: ast.Call, env: Dict[str, Any], as_stmt: bool) -> Any:
         text = ast.unparse(node)
         f = self.ev(node.func, env)
+        if f == Sym("max") and len(node.args) == 1 and isinstance(node.args[0], (ast.GeneratorExp, ast.ListComp)):
+            return self.max_over_lines(node, env)
         if any(isinstance(a, ast.Starred) for a in node.args) or any(k.arg is None for k in node.keywords):
             args, kw = [Opaque("*")], {}
         else:
